@@ -417,6 +417,11 @@ func (g *rawGen) kw(k string) string {
 	}
 	if g.weird {
 		ws := []string{"\t", "\n", " \t", "\n "}
+		if g.mode == 2 {
+			// a tab does not terminate an @name in NamedExpr.Build (its terminator set has \n and space, not \t):
+			// keep the keyword delimiters to characters that do
+			ws = []string{"\n", "\n ", " \n"}
+		}
 		return ws[rng.Intn(len(ws))] + k + ws[rng.Intn(len(ws))]
 	}
 	if rng.Intn(6) == 0 {
